@@ -224,6 +224,10 @@ def run_all(tier, seed):
                 ("missing", lambda: K.mix(obj=o, x=0.25, n=3), "call 4 0 obj,x,n", "err assertion"),
                 ("extra", lambda: K.mix(obj=o, x=0.25, n=3, arr=arr, y=1), "call 4 0 obj,x,n,arr,y", "err assertion"),
                 ("renamed", lambda: K.mix(obj=o, x=0.25, n=3, array=arr), "call 4 0 obj,x,n,array", "err key"),
+                # one argument missing and a misspelt one given instead: the count is right, the lookup by name must still fail
+                ("renamed-scalar", lambda: K.mix(obj=o, xx=0.25, n=3, arr=arr), "call 4 0 obj,xx,n,arr", "err key"),
+                ("renamed-int", lambda: K.mix(obj=o, x=0.25, m=3, arr=arr), "call 4 0 obj,x,m,arr", "err key"),
+                ("renamed-object", lambda: K.mix(object=o, x=0.25, n=3, arr=arr), "call 4 0 object,x,n,arr", "err key"),
                 ("wrong-element-type", lambda: K.mix(obj=o, x=0.25, n=3, arr=arr.astype("f4")), None, None),
                 ("wrong-element-type-int", lambda: K.first_Float64(p=np.array([1, 2, 3], dtype="i8")), None, None),
                 # xobject arrays are checked like NumPy arrays: the element type must be the declared one
